@@ -31,6 +31,7 @@ func main() {
 	r.Floor("scenario.with-walk-pool", 5)
 	r.Floor("scenario.with-truncate", 5)
 	r.Floor("scenario.with-mine", 5)
+	r.Floor("scenario.large-blocks", 3)
 	r.Floor("crash.resynced", 500)
 	r.Floor("crash.pool-nonempty", 50)
 	r.Assume("a single kvdb Put / Delete / Batch.Write is atomic and durable (what leveldb guarantees); torn writes inside one write are not modelled")
@@ -42,6 +43,14 @@ func scenario(r *ev.Run, sc int) {
 	o := gen.DefaultOpts()
 	o.MaxBlocks = 6
 	o.MaxDepth = 4
+	if sc%8 == 3 {
+		// large blocks: reorganisations rewrite megabytes (batch-size dependent code paths)
+		o.BigDesc = 500 * 1024
+		o.MaxBlocks = 5
+		o.MaxTxs = 2
+		o.KV = false
+		r.Count("scenario.large-blocks", 1)
+	}
 	var s *hist.SUT
 	defer func() {
 		if p := recover(); p != nil {
@@ -57,7 +66,21 @@ func scenario(r *ev.Run, sc int) {
 				map[string]interface{}{"scenario": sc, "ops": ops})
 		}
 	}()
-	t, err := gen.Generate(rng, o)
+	var t *gen.Tree
+	var err error
+	scripted := o.BigDesc > 0
+	if scripted {
+		// two competing branches of large blocks sharing transactions: A1-A2 vs B1-B2-B3
+		t, err = gen.NewTree(o)
+		for _, parent := range []int{0, 1, 0, 3, 4} {
+			if err != nil {
+				break
+			}
+			_, err = t.AddBlock(rng, parent, 1+rng.Intn(2), nil)
+		}
+	} else {
+		t, err = gen.Generate(rng, o)
+	}
 	if err != nil {
 		r.Violation("generator|fresh-replay-failed", err.Error(), map[string]interface{}{"scenario": sc})
 		return
@@ -74,8 +97,24 @@ func scenario(r *ev.Run, sc int) {
 	nops := 8 + rng.Intn(12)
 	bounds := []int{0} // write-log length after each op
 	so := hist.StepOpts{Reopen: true, Pool: true, Mine: true, Truncate: true}
+	script := []func() hist.Op{}
+	if scripted {
+		// warm caches, the longer branch arrives last: the switch rewrites both branches in one confirmation
+		for _, i := range []int{1, 2, 3, 4} {
+			i := i
+			script = append(script, func() hist.Op { return s.Confirm(i) })
+		}
+		script = append(script, func() hist.Op { return s.Walk(2, false) }, func() hist.Op { return s.Confirm(5) },
+			func() hist.Op { return s.Walk(5, false) })
+		nops = len(script) + 3
+	}
 	for i := 0; i < nops; i++ {
-		op := s.Step(rng, so)
+		var op hist.Op
+		if i < len(script) {
+			op = script[i]()
+		} else {
+			op = s.Step(rng, so)
+		}
 		if strings.HasPrefix(op.Result, "FAIL") {
 			r.Violation("legal-op-failed|"+op.Kind, "legal operation failed while recording the scenario: "+op.String()+" ops: "+strings.Join(s.OpLog(), " "),
 				map[string]interface{}{"scenario": sc, "ops": s.OpLog()})
